@@ -739,6 +739,28 @@ def all_lines(ctx: Ctx):
     }
 
 
+def history_independence(ctx: Ctx, streams, first_pass):
+    """every request is a pure function of its arguments: a second evaluation of a sample of all requests, in a shuffled order
+    that interleaves frequencies and streams (after everything else has run in this process), must give the first answers.
+    This is what exposes memos keyed too coarsely (e.g. by serial or by year without the frequency) and state left behind."""
+    rng = ctx.rng.fork("history")
+    pool = [(name, i) for name, lines in streams.items() for i in range(len(lines))]
+    k = min(len(pool), ctx.n(30000, 300000))
+    for j in range(k):   # partial Fisher-Yates: the first k entries are a uniform sample in random order
+        r = rng.randint(j, len(pool) - 1)
+        pool[j], pool[r] = pool[r], pool[j]
+    bad = 0
+    for name, i in pool[:k]:
+        again = impl_eval(streams[name][i])
+        if again != first_pass[name][i]:
+            bad += 1
+            if bad <= 3:
+                ctx.fail("answer-depends-on-history", {"line": streams[name][i]} if "span" in streams[name][i][:4] else streams[name][i],
+                         f"first evaluation {first_pass[name][i]!r}, evaluated again later in the same process {again!r}")
+    ctx.count("history_reevaluations", k)
+    ctx.evaluations += k
+
+
 def run(ctx: Ctx):
     ctx.rule = ("calendar: every day / every regular period of the enumerated years (quick: 1890-2110 plus boundary years; "
                 "thorough: years 1-9999 exhaustively); arithmetic: edge and random period pairs of equal and mixed frequency; "
@@ -746,8 +768,10 @@ def run(ctx: Ctx):
                 "distinct_nontrivial counts distinct (step, length>=2, op) span states reached, distinct (freq, year%400, segment) "
                 "calendar classes and distinct cmp sign patterns")
     streams = all_lines(ctx)
+    first_pass = {}
     for name, lines in streams.items():
         impl = [impl_eval(l) for l in lines]
+        first_pass[name] = impl
         model = ctx.model("C09", lines)
         ctx.compare(name, lines, impl, model)
         ctx.evaluations += len(lines)
@@ -760,6 +784,7 @@ def run(ctx: Ctx):
                 ctx.nontriv((ws[0], ws[1], y % 400 if ws[1] != "D" else y % 4, o.split()[1] if ws[0] == "ys" and ws[1] != "D" else ""))
             elif ws[0] == "cmp":
                 ctx.nontriv(("cmp", ws[1] == ws[3], o[-13:]))
+    history_independence(ctx, streams, first_pass)
     ctx.exhaustive = not ctx.quick
     oracle_calendar(ctx)
     oracle_arith(ctx, streams["cmp"])
